@@ -47,7 +47,7 @@ theorem rangeCheck_ok {e w lo hi e' : Nat} {c : Bool} {r : SR} (h : rangeCheck e
     · rename_i h1 h2
       simp only [PR.ok.injEq] at h
       simp only [Bool.or_eq_true, not_or, Bool.not_eq_true] at h2
-      exact ⟨h.1.symm, h.2.symm, by omega, h2.1⟩
+      exact ⟨h.1.symm, h.2.symm, by omega, h2.1.1⟩
 
 /-- what an accepted range item looks like, whatever its text was: bounds fit `unsigned long`,
     are ordered, the C size test passed, and the width is the length of the text before `-` -/
